@@ -456,9 +456,14 @@ func (e *EntitlementMapAccess) Image(gauge common.MemoryGauge, inputs Access, po
 		output := orderedmap.New[EntitlementOrderedSet](inputs.Entitlements.Len())
 
 		var err error
+		hasEmptyImage := false
 		inputs.Entitlements.Foreach(func(entitlement *EntitlementType, _ struct{}) {
 			entitlementImage := e.entitlementImage(entitlement)
 			output.SetAll(entitlementImage)
+
+			if entitlementImage.Len() == 0 {
+				hasEmptyImage = true
+			}
 
 			// The image of a single element is always a conjunctive set;
 			// consider a mapping M defined as X -> Y, X -> Z, A -> B, A -> C. M(X) = Y & Z and M(A) = B & C.
@@ -482,6 +487,13 @@ func (e *EntitlementMapAccess) Image(gauge common.MemoryGauge, inputs Access, po
 
 		// the image of a set through a map is the conjunction of all the output sets
 		if output.Len() == 0 {
+			return UnauthorizedAccess, nil
+		}
+
+		// If an entitlement of a disjunction has no image, the holder of (only) that entitlement
+		// is granted nothing by the map, so nothing can be guaranteed for the disjunction either:
+		// (M(X) | nothing) is unauthorized, not M(X)
+		if inputs.SetKind == Disjunction && hasEmptyImage {
 			return UnauthorizedAccess, nil
 		}
 
